@@ -318,10 +318,32 @@ def _canon(x):
     return c(x)
 
 
+def rule_signature(gpr):
+    """(sorted genes, values): the full truth table up to 12 genes, else the values on all single knock-outs, all
+    all-but-one knock-outs and 1500 pseudo-random knock-out sets (seeded by the gene ids)"""
+    import itertools
+    gs = sorted(gpr.genes)
+    if len(gs) <= 12:
+        sets = [{g for g, b in zip(gs, mask) if b} for mask in itertools.product([False, True], repeat=len(gs))]
+    else:
+        rng = random.Random("|".join(gs))
+        sets = [set()] + [{g} for g in gs] + [set(gs) - {g} for g in gs] + [set(gs)]
+        for _ in range(1500):
+            p = rng.choice([0.1, 0.3, 0.5, 0.7])
+            sets.append({g for g in gs if rng.random() < p})
+    return (tuple(gs), tuple(bool(gpr.eval(k)) for k in sets))
+
+
 def obs(model):
     """bcc.views.snapshot + model id / name / notes / annotation + notes / annotation of the groups"""
     from bcc import views
     s = views.snapshot(model)
+    # bcc.views.truth_table falls back to the rule TEXT above 8 genes; the round trips may legitimately re-associate a rule
+    # (libsbml flattens nested and/or), so larger rules are compared by their values on a fixed family of knock-out sets
+    for r in model.reactions:
+        if len(r.gpr.genes) > 8:
+            t = s["reactions"][r.id]
+            s["reactions"][r.id] = t[:3] + (rule_signature(r.gpr),) + t[4:]
     s["model"] = (model.id, model.name, _canon(model.notes), _canon(model.annotation))
     s["group_meta"] = {g.id: (_canon(g.notes), _canon(g.annotation)) for g in model.groups}
     return s
@@ -490,36 +512,46 @@ def run_units(fn, units, nproc=None):
     nproc = nproc or min(16, os.cpu_count() or 1)
     results = [None] * len(units)
     todo = list(range(len(units)))[::-1]
-    running = {}
+    running = {}          # index -> (process, receiving end)
+    reap = []             # processes whose result has arrived; joined without blocking the dispatcher
+    error = None
     while todo or running:
-        while todo and len(running) < nproc:
+        while todo and len(running) < nproc and error is None:
             i = todo.pop()
             parent, child = ctx.Pipe(duplex=False)
             p = ctx.Process(target=_child, args=(fn, units[i], child), daemon=True)
             p.start()
             child.close()
             running[i] = (p, parent)
-        ready = wait([c for _, c in running.values()] + [p.sentinel for p, _ in running.values()], timeout=5.0)
+        if error is not None and not running:
+            break
+        ready = set(wait([c for _, c in running.values()] + [p.sentinel for p, _ in running.values()], timeout=5.0))
         for i in list(running):
             p, c = running[i]
-            if c in ready or p.sentinel in ready:
+            if c not in ready and p.sentinel not in ready:
+                continue
+            got = None
+            try:
+                if c.poll(0):
+                    got = c.recv()
+            except (EOFError, OSError):
                 got = None
-                try:
-                    if c.poll(0.2 if p.sentinel in ready else 0):
-                        got = c.recv()
-                except (EOFError, OSError):
-                    got = None
-                if got is None and p.is_alive() and c not in ready:
-                    continue
-                if got is None and p.is_alive():
-                    continue
-                p.join(timeout=10)
-                c.close()
-                del running[i]
-                if got is None:
-                    results[i] = Crashed(p.exitcode)
-                elif got[0] == "exc":
-                    raise RuntimeError(f"unit {i} raised in the worker: {got[1]}")
-                else:
-                    results[i] = got[1]
+            if got is None and p.is_alive():
+                continue                      # woken up for nothing
+            if got is None:
+                p.join(timeout=5)
+                results[i] = Crashed(p.exitcode)
+            elif got[0] == "exc":
+                error = RuntimeError(f"unit {i} raised in the worker: {got[1]}")
+                reap.append(p)
+            else:
+                results[i] = got[1]
+                reap.append(p)
+            c.close()
+            del running[i]
+        reap = [p for p in reap if p.is_alive() or p.join(0)]
+    for p in reap:
+        p.join(timeout=5)
+    if error is not None:
+        raise error
     return results
